@@ -23,7 +23,11 @@ META = {
         'property\'s own: no two same-pitch notes overlap or coincide, no two '
         'state events of one kind share a time.',
     'functions': [('sequences_lib', 'quantize_note_sequence'),
+                  ('sequences_lib', 'quantize_note_sequence_absolute'),
                   ('sequences_lib', '_extract_subsequences'),
+                  ('sequences_lib', 'extract_subsequence'),
+                  ('sequences_lib', 'trim_note_sequence'),
+                  ('sequences_lib', 'split_note_sequence'),
                   ('sequences_lib', 'split_note_sequence_on_time_changes'),
                   ('sequences_lib', 'split_note_sequence_on_silence'),
                   ('sequences_lib', 'apply_sustain_control_changes'),
@@ -36,7 +40,10 @@ META = {
                   ('chords_lib', 'ChordProgression.from_quantized_sequence'),
                   ('pianoroll_lib', 'PianorollSequence._from_quantized_sequence'),
                   ('performance_lib',
-                   'BasePerformance._from_quantized_sequence')],
+                   'BasePerformance._from_quantized_sequence'),
+                  ('performance_lib',
+                   'NotePerformance._from_quantized_sequence'),
+                  ('performance_lib', '_program_and_is_drum_from_sequence')],
     'assumptions': [
         'no two same-pitch notes overlap or coincide; no two state events of '
         'one kind (tempo, time signature, key, chord, pedal of one instrument) '
@@ -45,7 +52,17 @@ META = {
     ],
     'bounds': {
         'quick': 'n = 2 elements per swapped field (3 for notes in cheap '
-                 'operations)',
+                 'operations); keyword-argument jobs (*_kw): '
+                 'skip_splits_inside_notes, hop list / scalar hop (<= 3 hops), '
+                 'pedal numbers {64, 66} on instruments 0..1 with default and '
+                 '(66,) preserve lists, sustain_control_number=66, drum '
+                 'notes, export cutoff = 1 s for bends / time / key '
+                 'signatures, no tempo at 0, programs {0, 1} x drum flag, '
+                 'pianoroll renderer with blank frames / no onset overlap '
+                 '(3 frames, all 7 arrays; length_ms onsets and offsets in '
+                 'the thorough tier), extractors with '
+                 'start step 1, pad_end, 2-step bars, instrument 1, pitch '
+                 'window 61..61',
         'thorough': 'n = 3 elements, every adjacent pair',
     },
     'outside': ['more than 3 elements per field'],
@@ -192,7 +209,12 @@ def _std_fields(c, which, n):
   is not multiplied across kinds that do not interact."""
   TA = c.pb.NoteSequence.TextAnnotation
   fields = {}
-  notes = _notes_spec(c, n if which == 'notes' else 1)
+  # extra: {field: count} of further populated fields (stored in one order in
+  # both runs); drums: symbolic is_drum; cc_var: pedal number / instrument of
+  # each control change symbolic
+  extra = c.params.get('extra') or {}
+  notes = _notes_spec(c, n if which == 'notes' else extra.get('notes', 1),
+                      drums=bool(c.params.get('drums')))
   fields['notes'] = notes
   tt = c.real('tt', 0)
   for s in notes:
@@ -203,27 +225,31 @@ def _std_fields(c, which, n):
     _distinct_times(c, ts)
     return ts
 
-  k = n if which == 'tempos' else 0
+  k = n if which == 'tempos' else extra.get('tempos', 0)
   fields['tempos'] = [dict(time=t, qpm=c.real('tp%d_q' % i, 10, 480))
                       for i, t in enumerate(times('tp', k))]
-  k = n if which == 'time_signatures' else 0
+  k = n if which == 'time_signatures' else extra.get('time_signatures', 0)
   fields['time_signatures'] = [
       dict(time=t, numerator=c.int('ts%d_n' % i, 1, 12),
            denominator=c.choice('ts%d_d' % i, [4, 8]))
       for i, t in enumerate(times('ts', k))]
-  k = n if which == 'key_signatures' else 0
+  k = n if which == 'key_signatures' else extra.get('key_signatures', 0)
   fields['key_signatures'] = [dict(time=t, key=c.int('ks%d_k' % i, 0, 11))
                               for i, t in enumerate(times('ks', k))]
-  k = n if which == 'control_changes' else 0
+  k = n if which == 'control_changes' else extra.get('control_changes', 0)
   ccs = [dict(time=t, control_number=64, control_value=c.int('cc%d_v' % i, 0, 127),
               instrument=0) for i, t in enumerate(times('cc', k))]
+  if c.params.get('cc_var'):
+    for i, e in enumerate(ccs):
+      e['control_number'] = c.choice('cc%d_n' % i, [64, 66])
+      e['instrument'] = c.int('cc%d_i' % i, 0, 1)
   fields['control_changes'] = ccs
-  k = n if which == 'text_annotations' else 0
+  k = n if which == 'text_annotations' else extra.get('text_annotations', 0)
   fields['text_annotations'] = [
       dict(time=t, text=['C', 'G7', 'Am'][i],
            annotation_type=c.params.get('ta_type', TA.CHORD_SYMBOL))
       for i, t in enumerate(times('ta', k))]
-  k = n if which == 'pitch_bends' else 0
+  k = n if which == 'pitch_bends' else extra.get('pitch_bends', 0)
   fields['pitch_bends'] = [dict(time=t, bend=c.int('pb%d_b' % i, -100, 100))
                            for i, t in enumerate(times('pb', k))]
   return fields, tt
@@ -235,8 +261,15 @@ def h_seq_op(c):
   op_name, which, n, swap = (c.params['op'], c.params['field'], c.params['n'],
                              c.params['swap'])
   fields, tt = _std_fields(c, which, n)
+  order_b = _order(n, swap)
+  if op_name == 'sustain' and 'scn' in c.params and which == 'control_changes':
+    # a closing pedal-up after everything else in time (stored first in both
+    # runs), so that one effective pedal-down among the swapped events shows
+    fields[which] = [dict(time=tt + 1, control_number=c.params['scn'],
+                          control_value=0, instrument=0)] + fields[which]
+    order_b = [0] + [i + 1 for i in order_b]
   a = _build(c, fields, {}, tt)
-  b = _build(c, fields, {which: _order(n, swap)}, tt)
+  b = _build(c, fields, {which: order_b}, tt)
   if op_name == 'quantize':
     op = lambda ns: sl.quantize_note_sequence(ns, 4)
   elif op_name == 'quantize_abs':
@@ -244,12 +277,51 @@ def h_seq_op(c):
   elif op_name == 'extract':
     sp = [c.real('sp%d' % i, 0) for i in range(3)]
     c.assume(c.And(sp[0] <= sp[1], sp[1] <= sp[2], sp[1] < tt))
-    op = lambda ns: sl._extract_subsequences(ns, list(sp))
+    if 'pcn' in c.params:
+      # non-default list of pedal numbers to carry over the split points
+      pcn = c.params['pcn']
+      op = lambda ns: sl._extract_subsequences(
+          ns, list(sp), preserve_control_numbers=list(pcn))
+    else:
+      op = lambda ns: sl._extract_subsequences(ns, list(sp))
+  elif op_name == 'extract_one':
+    # the public single-range form (default pedal numbers 64, 66, 67)
+    s0, e0 = c.real('x_s', 0), c.real('x_e', 0)
+    op = lambda ns: sl.extract_subsequence(ns, s0, e0)
+  elif op_name == 'trim':
+    s0, e0 = c.real('x_s', 0), c.real('x_e', 0)
+    op = lambda ns: sl.trim_note_sequence(ns, s0, e0)
+  elif op_name == 'split_changes' and 'skip' in c.params:
+    # with skip_splits_inside_notes=True the sorted note list decides whether
+    # a tempo / time signature change splits the sequence
+    skip = c.params['skip']
+    op = lambda ns: sl.split_note_sequence_on_time_changes(
+        ns, skip_splits_inside_notes=skip)
   elif op_name == 'split_changes':
     op = lambda ns: sl.split_note_sequence_on_time_changes(ns)
+  elif op_name == 'split_hop':
+    # split_note_sequence at a list of times (given unsorted) or at multiples
+    # of a scalar hop size (at most 3 hops inside total_time)
+    if c.params.get('scalar'):
+      hop = c.real('hop')
+      c.assume(c.And(hop > 0, tt <= 3 * hop))
+      hops = hop
+    else:
+      hops = [c.real('hop%d' % i, 0) for i in range(2)]
+    mk = (lambda: list(hops)) if isinstance(hops, list) else (lambda: hops)
+    if 'skip' in c.params:
+      skip = c.params['skip']
+      op = lambda ns: sl.split_note_sequence(
+          ns, mk(), skip_splits_inside_notes=skip)
+    else:
+      op = lambda ns: sl.split_note_sequence(ns, mk())
   elif op_name == 'split_silence':
     gap = c.real('gap', 0)
     op = lambda ns: sl.split_note_sequence_on_silence(ns, gap)
+  elif op_name == 'sustain' and 'scn' in c.params:
+    scn = c.params['scn']
+    op = lambda ns: sl.apply_sustain_control_changes(
+        ns, sustain_control_number=scn)
   elif op_name == 'sustain':
     op = sl.apply_sustain_control_changes
   elif op_name == 'transpose':
@@ -275,14 +347,24 @@ def h_seq_op(c):
 
 
 def h_extract_events(c):
-  """Melody / DrumTrack / PianorollSequence / Performance extraction."""
+  """Melody / DrumTrack / PianorollSequence / Performance / NotePerformance
+  extraction.  params: ts = time signature (bar length in steps = 4 * ts[0] /
+  ts[1] at one step per quarter); ins2 = notes on instruments 0 and 1; kw =
+  keyword arguments of the extractor (replacing the positional defaults of the
+  plain jobs)."""
   which = c.params['type']
   n, swap, S = c.params['n'], c.params['swap'], c.params['S']
+  kw = dict(c.params.get('kw') or {})
+  has_kw = 'kw' in c.params
   unb = which == 'performance'
-  nsa, notes, tq = c07._qseq(c, n, None if unb else S, relative=which != 'performance',
+  absolute = which in ('performance', 'noteperf')
+  nsa, notes, tq = c07._qseq(c, n, None if unb else S, relative=not absolute,
                              spq=1, sps=100, pitch=(60, 62) if which != 'drums'
                              else (36, 38), unbounded=unb,
-                             vel=(1, 127), instruments=(0, 0))
+                             ts=tuple(c.params.get('ts', (4, 4))),
+                             vel=(1, 127),
+                             instruments=(0, 1) if c.params.get('ins2')
+                             else (0, 0))
   if unb:
     c.assume(tq <= 2 * 3)
   # the same notes in swapped storage order
@@ -296,34 +378,59 @@ def h_extract_events(c):
   def run(ns):
     if which == 'melody':
       m = c.mod('melodies_lib').Melody()
-      m.from_quantized_sequence(ns, 0, 0, 1, True, False, False)
+      if has_kw:
+        m.from_quantized_sequence(ns, **kw)
+      else:
+        m.from_quantized_sequence(ns, 0, 0, 1, True, False, False)
       return (list(m), m.start_step, m.end_step)
     if which == 'drums':
       d = c.mod('drums_lib').DrumTrack()
-      d.from_quantized_sequence(ns, 0, 1, False, True)
+      if has_kw:
+        d.from_quantized_sequence(ns, **kw)
+      else:
+        d.from_quantized_sequence(ns, 0, 1, False, True)
       return ([sorted(c.concretize(p) for p in e) for e in d], d.start_step,
               d.end_step)
     if which == 'pianoroll':
-      r = c.mod('pianoroll_lib').PianorollSequence(
-          quantized_sequence=ns, start_step=0, min_pitch=60, max_pitch=62,
-          split_repeats=c.params.get('split', True))
+      if has_kw:
+        r = c.mod('pianoroll_lib').PianorollSequence(quantized_sequence=ns,
+                                                     **kw)
+      else:
+        r = c.mod('pianoroll_lib').PianorollSequence(
+            quantized_sequence=ns, start_step=0, min_pitch=60, max_pitch=62,
+            split_repeats=c.params.get('split', True))
       return (list(r), r.start_step, r.end_step)
     pl = c.mod('performance_lib')
-    p = pl.Performance(ns, start_step=0, num_velocity_bins=c.params.get('bins', 4),
-                       max_shift_steps=3)
-    return ([(e.event_type, e.event_value) for e in p], p.start_step, p.end_step)
+    if which == 'noteperf':
+      p = pl.NotePerformance(ns, **kw)
+      return ([(4 * i + j, e.event_type, e.event_value)
+               for i, t in enumerate(p) for j, e in enumerate(t)],
+              p.start_step, 0, p.program, p.is_drum)
+    if has_kw:
+      p = pl.Performance(ns, **kw)
+    else:
+      p = pl.Performance(ns, start_step=0,
+                         num_velocity_bins=c.params.get('bins', 4),
+                         max_shift_steps=3)
+    return ([(e.event_type, e.event_value) for e in p], p.start_step,
+            p.end_step, p.program, p.is_drum)
 
   ra, rb = _both(c, run, nsa, nsb)
   if ra is None:
     return
   ea, eb = ra[0], rb[0]
   c.check(len(ea) == len(eb), 'same number of events')
-  if which == 'performance':
+  if which in ('performance', 'noteperf'):
     # events of one step may legitimately be ordered differently only if the
     # extractor's own ordering key ties; it sorts by (time, pitch), so require
     # identical streams
-    c.check(c.And([c.And(x[0] == y[0], c.eq(x[1], y[1]))
+    c.check(c.And([c.And([c.eq(u, v) for u, v in zip(x, y)])
                    for x, y in zip(ea, eb)] or [True]), 'same event stream')
+    # program / drum flag of the extracted track: None, or the common value
+    same = lambda u, v: (u is None) == (v is None) and (
+        u is None or bool(c.eq(u, v)))
+    c.check(same(ra[3], rb[3]) and same(ra[4], rb[4]),
+            'same program and drum flag')
   elif which == 'melody':
     c.check(c.And([c.eq(x, y) for x, y in zip(ea, eb)] or [True]),
             'same melody events')
@@ -334,6 +441,12 @@ def h_extract_events(c):
     c.cover('abutting notes of one pitch',
             c.And(c.eq(notes[0]['p'], notes[1]['p']),
                   c.eq(notes[0]['qs'], notes[1]['qe'])))
+  if n >= 2 and 'ts' in c.params and which in ('melody', 'drums'):
+    bar = 4 * c.params['ts'][0] // c.params['ts'][1]
+    c.cover('second stored note a bar or more after the end of the first '
+            '(gap ends the track)', notes[1]['qs'] - notes[0]['qe'] >= bar)
+    c.cover('first stored note in a later bar than the second',
+            notes[0]['qs'] >= notes[1]['qs'] + bar)
 
 
 def h_chord_events(c):
@@ -341,9 +454,24 @@ def h_chord_events(c):
   TA = c.pb.NoteSequence.TextAnnotation
   n, swap, S = c.params['n'], c.params['swap'], c.params['S']
   qs = [c.int('c%d_q' % i, 0, S) for i in range(n)]
-  for i in range(n):
-    for j in range(i + 1, n):
-      c.assume(c.Not(c.eq(qs[i], qs[j])))
+  ts = [0] * n
+  if c.params.get('same_step'):
+    # chords at distinct TIMES (the property's precondition) that may share a
+    # quantized step; steps are monotone in time as the quantizer makes them
+    ts = [c.real('c%d_t' % i, 0) for i in range(n)]
+    _distinct_times(c, ts)
+    for i in range(n):
+      for j in range(n):
+        if i != j:
+          c.assume(c.Implies(ts[i] < ts[j], qs[i] <= qs[j]))
+          if c.params.get('not_before_start'):
+            # restricted form (the unrestricted job follows it in jobs())
+            c.assume(c.Or(c.Not(c.eq(qs[i], qs[j])),
+                          qs[i] >= c.params['start']))
+  else:
+    for i in range(n):
+      for j in range(i + 1, n):
+        c.assume(c.Not(c.eq(qs[i], qs[j])))
 
   def build(order):
     ns = c.pb.NoteSequence()
@@ -351,7 +479,7 @@ def h_chord_events(c):
     ns.time_signatures.add(numerator=4, denominator=4)
     for i in order:
       ns.text_annotations.add(text=c07._FIGS[i], quantized_step=qs[i],
-                              annotation_type=TA.CHORD_SYMBOL)
+                              time=ts[i], annotation_type=TA.CHORD_SYMBOL)
     return ns
 
   def run(ns):
@@ -365,34 +493,57 @@ def h_chord_events(c):
 
 
 def h_midi_export(c):
-  """MIDI export: same PrettyMIDI object model for swapped storage orders."""
+  """MIDI export: same PrettyMIDI object model for swapped storage orders.
+  params: field = the swapped repeated field; drop = the
+  drop_events_n_seconds_after_last_note argument; t0=False: no tempo mark at
+  time 0; prog: notes with symbolic program and drum flag (several export
+  tracks per instrument number)."""
   mio = c.mod('midi_io')
   which, n, swap = c.params['field'], c.params['n'], c.params['swap']
-  notes = _notes_spec(c, n if which == 'notes' else 1, drums=False)
-  for s in notes:
+  notes = _notes_spec(c, n if which == 'notes' else 1,
+                      drums=bool(c.params.get('prog')))
+  for i, s in enumerate(notes):
     s['instrument'] = c.concretize(s['instrument'])
-    s['program'] = 0
+    s['program'] = c.choice('n%d_g' % i, [0, 1]) if c.params.get('prog') else 0
+    s['is_drum'] = c.concretize(s['is_drum'])
   qpms = [120.0, 60.0, 240.0]
-  tts = [0] + [c.real('tp%d_t' % i) for i in range(1, n)] if which == 'tempos' \
-      else [0]
-  for t in tts[1:]:
-    c.assume(t > 0)
+  if c.params.get('t0', True):
+    tts = [0] + [c.real('tp%d_t' % i) for i in range(1, n)] \
+        if which == 'tempos' else [0]
+    for t in tts[1:]:
+      c.assume(t > 0)
+  else:
+    # no tempo mark at time 0: the export starts at the default tempo
+    tts = [c.real('tp%d_t' % i) for i in range(n)]
+    for t in tts:
+      c.assume(t > 0)
   _distinct_times(c, tts)
   tempos = [dict(time=t, qpm=qpms[i]) for i, t in enumerate(tts)]
-  # control changes / pitch bends on the notes' instrument (storage order
-  # swapped when they are the field under test); with `drop`, events later than
-  # `drop` seconds after the last note end are to be left out
+  # control changes / pitch bends on the notes' instrument, time and key
+  # signatures (storage order swapped when they are the field under test);
+  # with `drop`, events later than `drop` seconds after the last note end are
+  # to be left out
   drop = c.params.get('drop')
-  k_ev = n if which in ('control_changes', 'pitch_bends') else 0
+  k_ev = n if which in ('control_changes', 'pitch_bends', 'time_signatures',
+                        'key_signatures') else 0
   ev_t = [c.real('ev%d_t' % i, 0) for i in range(k_ev)]
   _distinct_times(c, ev_t)
-  evs = [dict(time=t, instrument=notes[0]['instrument'], program=0)
-         for t in ev_t]
+  if which in ('time_signatures', 'key_signatures'):
+    evs = [dict(time=t) for t in ev_t]
+  else:
+    evs = [dict(time=t, instrument=notes[0]['instrument'],
+                program=notes[0]['program'], is_drum=notes[0]['is_drum'])
+           for t in ev_t]
   for i, e in enumerate(evs):
     if which == 'control_changes':
       e.update(control_number=64, control_value=c.int('ev%d_v' % i, 0, 127))
-    else:
+    elif which == 'pitch_bends':
       e.update(bend=c.int('ev%d_v' % i, -8192, 8191))
+    elif which == 'time_signatures':
+      e.update(numerator=c.int('ev%d_v' % i, 1, 12),
+               denominator=c.choice('ev%d_d' % i, [4, 8]))
+    else:
+      e.update(key=c.int('ev%d_v' % i, 0, 11), mode=c.int('ev%d_m' % i, 0, 1))
 
   def build(order_notes, order_tempos, order_evs):
     ns = c.pb.NoteSequence()
@@ -411,8 +562,11 @@ def h_midi_export(c):
             _order(k_ev, swap if k_ev else None))
 
   def run(ns):
-    pm = mio.note_sequence_to_pretty_midi(
-        ns, drop_events_n_seconds_after_last_note=drop)
+    if 'drop' in c.params:
+      pm = mio.note_sequence_to_pretty_midi(
+          ns, drop_events_n_seconds_after_last_note=drop)
+    else:
+      pm = mio.note_sequence_to_pretty_midi(ns)
     times, q = pm.get_tempo_changes()
     insts = []
     for ins in pm.instruments:
@@ -421,7 +575,10 @@ def h_midi_export(c):
                     [(-1, cc.value, cc.time, cc.number)
                      for cc in ins.control_changes] +
                     [(-2, pb_.pitch, pb_.time, 0) for pb_ in ins.pitch_bends]))
-    return list(times), list(q), list(pm._tick_scales), insts
+    sigs = [(0, x.numerator, x.denominator, x.time)
+            for x in pm.time_signature_changes] + [
+                (1, x.key_number, 0, x.time) for x in pm.key_signature_changes]
+    return list(times), list(q), sigs, insts
 
   ra, rb = _both(c, run, a, b)
   if ra is None:
@@ -435,33 +592,67 @@ def h_midi_export(c):
     c.check(pa == pb_ and da == db and bool(K.multiset_eq(
         c, na, [(True, k) for k in nb])), 'same notes, control changes and '
                                             'pitch bends per instrument')
+  c.check(len(ra[2]) == len(rb[2]) and bool(K.multiset_eq(
+      c, ra[2], [(True, k) for k in rb[2]])),
+          'same time and key signature changes')
+  if k_ev and drop is not None:
+    last = c.Max([s['end_time'] for s in notes])
+    c.cover('one swapped event past the cutoff, one inside',
+            c.Or(c.And(ev_t[0] > last + drop, ev_t[1] <= last + drop),
+                 c.And(ev_t[1] > last + drop, ev_t[0] <= last + drop)))
 
 
 def h_frame_roll(c):
-  """sequence_to_pianoroll: same rolls for swapped note storage order."""
+  """sequence_to_pianoroll: same rolls for swapped note (or control change)
+  storage order.  params: kw = keyword arguments handed to the renderer;
+  all = compare all seven arrays of the result (else the three note rolls);
+  cc = number of control changes, swapped instead of the notes."""
   sl = c.mod('sequences_lib')
   n, swap = c.params['n'], c.params['swap']
+  k_cc = c.params.get('cc', 0)
+  kw = dict(c.params.get('kw') or {})
   notes = _notes_spec(c, n, pitch=(60, 61), one_instrument=True)
   tt = c.real('tt', 0)
   for s in notes:
     c.assume(s['end_time'] <= tt)
   fps = c.params['fps']
   c.assume(tt * fps < c.params['frames'])
+  cc_t = [c.real('cc%d_t' % i, 0) for i in range(k_cc)]
+  _distinct_times(c, cc_t)
+  ccs = [dict(time=t, control_number=c.choice('cc%d_n' % i, [64, 67]),
+              control_value=c.int('cc%d_v' % i, 0, 127))
+         for i, t in enumerate(cc_t)]
+  if c.params.get('cc_apart'):
+    # restricted form (the unrestricted job follows it in jobs()): control
+    # changes of one number lie in different frames
+    for i in range(k_cc):
+      for j in range(i + 1, k_cc):
+        c.assume(c.Or(ccs[i]['control_number'] != ccs[j]['control_number'],
+                      c.Not(c.eq(c.Floor(cc_t[i] * fps),
+                                 c.Floor(cc_t[j] * fps)))))
 
-  def build(order):
+  def build(order, order_cc):
     ns = c.pb.NoteSequence()
     for i in order:
       ns.notes.add(**notes[i])
+    for i in order_cc:
+      ns.control_changes.add(**ccs[i])
     ns.total_time = tt
     return ns
 
   def run(ns):
-    r = sl.sequence_to_pianoroll(ns, fps, 60, 61)
+    r = sl.sequence_to_pianoroll(ns, fps, 60, 61, **kw)
     f = lambda a: [[x for x in row] for row in (
         a.tolist() if hasattr(a, 'tolist') else a)]
-    return f(r.active), f(r.onsets), f(r.active_velocities)
+    out = (f(r.active), f(r.onsets), f(r.active_velocities))
+    if c.params.get('all'):
+      out += (f(r.weights), f(r.onset_velocities), f(r.offsets),
+              f(r.control_changes))
+    return out
 
-  ra, rb = _both(c, run, build(_order(n, None)), build(_order(n, swap)))
+  ra, rb = _both(c, run, build(_order(n, None), range(k_cc)),
+                 build(_order(n, None if k_cc else swap),
+                       _order(k_cc, swap if k_cc else None)))
   if ra is None:
     return
   conds = []
@@ -469,15 +660,31 @@ def h_frame_roll(c):
     if len(A) != len(B):
       c.check(False, 'same roll length')
       return
-    for rowa, rowb in zip(A, B):
-      for x, y in zip(rowa, rowb):
-        conds.append(c.approx(x, y, 1e-6))
+    conds.append([c.approx(x, y, 1e-6) for rowa, rowb in zip(A, B)
+                  for x, y in zip(rowa, rowb)])
   # two notes of one pitch sharing a frame paint their velocity in start-time
   # order; the precondition (no overlap) leaves only the shared boundary frame
-  c.check(c.And(conds or [True]), 'same active / onset / velocity rolls')
+  c.check(c.And(sum(conds[:3], []) or [True]),
+          'same active / onset / velocity rolls')
+  if c.params.get('all'):
+    c.check(c.And(sum(conds[3:], []) or [True]),
+            'same weights / onset velocities / offsets / control change roll')
+  if n >= 2 and kw.get('add_blank_frame_before_onset'):
+    c.cover('a note starts in the frame after the start frame of an earlier '
+            'note of its pitch',
+            c.And(c.eq(notes[0]['pitch'], notes[1]['pitch']),
+                  c.eq(c.Floor(notes[0]['start_time'] * fps) + 1,
+                       c.Floor(notes[1]['start_time'] * fps))))
 
 
 HARNESSES = {
+    # *_kw: the same harness functions under a second name for the jobs that
+    # pass rarely used keyword arguments / sibling functions (so that
+    # `--only` can select them)
+    'h_seq_kw': h_seq_op,
+    'h_frame_kw': h_frame_roll,
+    'h_events_kw': h_extract_events,
+    'h_export_kw': h_midi_export,
     'h_midi_export': h_midi_export,
     'h_frame_roll': h_frame_roll,
     'h_seq_op': h_seq_op,
@@ -516,6 +723,29 @@ def jobs(tier):
           add('h_seq_op', op=op, field=f, n=3, swap=sw, budget=2400,
               required=op not in ('extract', 'sustain', 'split_changes'))
   add('h_seq_op', op='extract', field='text_annotations', n=2, swap=0, ta_type=2)
+  # keyword arguments and sibling functions
+  add('h_seq_kw', op='split_changes', field='notes', n=2, swap=0, skip=True,
+      extra={'tempos': 1})
+  add('h_seq_kw', op='split_hop', field='notes', n=2, swap=0, skip=True)
+  add('h_seq_kw', op='split_hop', field='notes', n=2, swap=0)
+  add('h_seq_kw', op='split_hop', field='notes', n=2, swap=0, skip=True,
+      scalar=True)
+  if deep:
+    add('h_seq_kw', op='extract', field='control_changes', n=2, swap=0,
+        cc_var=True, budget=900)
+  add('h_seq_kw', op='extract', field='control_changes', n=2, swap=0,
+      cc_var=True, pcn=(66,))
+  add('h_seq_kw', op='extract_one', field='control_changes', n=2, swap=0,
+      cc_var=True)
+  add('h_seq_kw', op='extract_one', field='notes', n=2, swap=0)
+  add('h_seq_kw', op='trim', field='notes', n=2, swap=0)
+  add('h_seq_kw', op='sustain', field='control_changes', n=2, swap=0,
+      cc_var=True, scn=66)
+  # (the plain sustain / notes job has no pedal event at all)
+  add('h_seq_kw', op='sustain', field='notes', n=2, swap=0, drums=True,
+      extra={'control_changes': 1})
+  add('h_seq_kw', op='transpose', field='notes', n=2, swap=0, drums=True)
+  add('h_seq_kw', op='quantize_abs', field='text_annotations', n=2, swap=0)
   # three notes: two starting together (tie order = storage order) + a later one
   for sw in (0, 1):
     add('h_seq_op', op='split_silence', field='notes', n=3, swap=sw)
@@ -527,6 +757,20 @@ def jobs(tier):
             required=False)
       add('h_extract_events', type=t, n=2, swap=0, S=6, budget=1800)
   add('h_extract_events', type='pianoroll', n=2, swap=0, S=4, split=False)
+  # keyword arguments of the extractors: a later search start, padding to the
+  # bar, two-step bars (so that notes lie in different bars and a one-bar gap
+  # ends the track), an instrument filter, a narrow pitch window; and the
+  # NotePerformance sibling
+  add('h_events_kw', type='melody', n=2, swap=0, S=5, ts=(2, 4), ins2=True,
+      kw=dict(search_start_step=1, pad_end=True), budget=600)
+  add('h_events_kw', type='drums', n=2, swap=0, S=5, ts=(2, 4),
+      kw=dict(search_start_step=1, pad_end=True), budget=600)
+  add('h_events_kw', type='pianoroll', n=2, swap=0, S=4,
+      kw=dict(start_step=1, min_pitch=61, max_pitch=61), budget=600)
+  add('h_events_kw', type='performance', n=2, swap=0, S=4, ins2=True,
+      kw=dict(start_step=1, instrument=1), budget=600)
+  add('h_events_kw', type='noteperf', n=2, swap=0, S=4, ins2=True,
+      kw=dict(num_velocity_bins=4, instrument=1, start_step=1), budget=600)
   add('h_quantize_extract', n=2, swap=0, sps=4, bins=4, budget=900)
   add('h_quantize_extract', n=2, swap=0, sps=4, type='melody', budget=900)
   add('h_quantize_extract', n=2, swap=0, sps=4, type='pianoroll', budget=900)
@@ -541,7 +785,30 @@ def jobs(tier):
   add('h_midi_export', field='tempos', n=3, swap=1, budget=600)
   add('h_midi_export', field='control_changes', n=2, swap=0, drop=1)
   add('h_midi_export', field='pitch_bends', n=2, swap=0, drop=None)
-  add('h_frame_roll', n=2, swap=0, fps=8, frames=4, budget=600)
+  # the cutoff for pitch bends and time / key signatures, no tempo at time 0,
+  # several (program, drum flag) tracks of one instrument number
+  add('h_export_kw', field='pitch_bends', n=2, swap=0, drop=1)
+  add('h_export_kw', field='time_signatures', n=2, swap=0, drop=1)
+  add('h_export_kw', field='key_signatures', n=2, swap=0, drop=1)
+  add('h_export_kw', field='tempos', n=2, swap=0, t0=False)
+  add('h_export_kw', field='notes', n=2, swap=0, prog=True)
+  add('h_frame_roll', n=2, swap=0, fps=8, frames=4, all=True, budget=600)
+  # renderer keyword arguments; all seven result arrays compared
+  add('h_frame_kw', n=2, swap=0, fps=8, frames=3, all=True, budget=600,
+      kw={'add_blank_frame_before_onset': True})
+  add('h_frame_kw', n=2, swap=0, fps=8, frames=3, all=True, budget=600,
+      kw={'onset_overlap': False, 'onset_window': 0})
+  if deep:
+    add('h_frame_kw', n=2, swap=0, fps=8, frames=3, all=True, budget=900,
+        kw={'onset_mode': 'length_ms', 'onset_length_ms': 125,
+            'offset_length_ms': 125, 'max_velocity': 254})
+  add('h_frame_kw', n=1, swap=0, cc=2, fps=8, frames=3, all=True,
+      cc_apart=True)
+  # two control changes of one number at distinct times inside one frame: the
+  # later one in time wins in both storage orders (F-C12-b, fixed: the roll
+  # kept the one stored last, e.g. CC64=127 at 3/16 s and CC64=126 at 1/8 s at
+  # 8 frames per second)
+  add('h_frame_kw', n=1, swap=0, cc=2, fps=8, frames=3, all=True)
   if deep:
     add('h_midi_export', field='notes', n=3, swap=1, budget=1800)
     # two exports of a 3-tempo map in one query: the solver may give up
@@ -551,6 +818,14 @@ def jobs(tier):
     add('h_frame_roll', n=2, swap=0, fps=50, frames=5, budget=1800)
   add('h_chord_events', n=2, swap=0, S=4, start=0, end=4)
   add('h_chord_events', n=2, swap=0, S=5, start=1, end=4)
+  # chords at distinct times on one quantized step (inside the range: the
+  # documented CoincidentChordsError in both orders)
+  add('h_chord_events', n=2, swap=0, S=5, start=1, end=4, same_step=True,
+      not_before_start=True)
+  # two different chords at distinct times that quantize to one step BEFORE
+  # start_step (F-C12-c, fixed: the chord in effect at start_step was the one
+  # stored last, e.g. 'C' at 0 s and 'G7' at 1/16 s, both step 0)
+  add('h_chord_events', n=2, swap=0, S=5, start=1, end=4, same_step=True)
   if deep:
     for sw in (0, 1):
       add('h_chord_events', n=3, swap=sw, S=5, start=1, end=5, budget=1800)
